@@ -108,6 +108,12 @@ def check_read(case, rec):
 
 def _check_read(case, rec, tmp):
     path = os.path.join(tmp, "table.csv")
+    if case.get("earlier"):
+        # the path held another table a moment ago, and that table was read: what counts is what the file holds now
+        build_file(case["earlier"], path)
+        e = case["earlier"]
+        run_read(path, e["columns"][e["target"] % len(e["columns"])]["name"], e["dtype"], e.get("missing"))
+        rec.label("read_after_file_replaced")
     line_of_row = build_file(case, path)
     cols = case["columns"]
     k = case["target"] % len(cols)
@@ -185,6 +191,12 @@ def check_write(case, rec):
     tmp = tempfile.mkdtemp(prefix="vcheck-c17-")
     try:
         path = os.path.join(tmp, "out.csv")
+        if case.get("preexisting"):
+            # the output path exists already and has been read in this process: the writer replaces it
+            with open(path, "w", newline="", encoding="utf-8") as f:
+                csv.writer(f, lineterminator="\n").writerows([[c["name"] for c in case["results"]]] + [[str(7 + i)] * len(case["results"]) for i in range(case["preexisting"])])
+            run_read(path, case["results"][0]["name"], "Float", None)
+            rec.label("write_over_file_read_before")
         producers = [A.stub(c["name"], A.make_array(c["spec"])) for c in case["results"]]
         cmd = EEMSWrite("W", [Argument("OutFileName", path, 1), Argument("OutFieldNames", producers, 2)], lineno=1)
         sig = "write|" + "+".join(sorted(set(c["spec"]["dtype"] for c in case["results"])))
@@ -292,6 +304,12 @@ def read_cases(draw):
         case["fault"], case["fault_row"] = f, row
         cols[target]["cells"][row] = draw(st.sampled_from(["abc", "", "1,5", "NULL", "1.2.3", " ", "--"]))
         # rows before the bad one must be numeric, which they are; later bad rows do not matter
+    if draw(st.integers(0, 3)) == 0:
+        n2 = draw(st.sampled_from([1, 2, nrows, nrows + 1]))
+        other = draw(st.booleans())
+        case["earlier"] = {"columns": [{"name": names[target] if not other else names[target] + "_old",
+                                        "cells": [repr(float(draw(st.integers(-9, 9)))) for _ in range(n2)]}],
+                           "target": 0, "dtype": "Float", "missing": draw(st.sampled_from([None, 0]))}
     return case
 
 
@@ -309,7 +327,10 @@ def write_cases(draw):
             data = draw(st.lists(st.one_of(FINITE, SPECIAL), min_size=n, max_size=n))
         mask = draw(st.one_of(st.none(), st.lists(st.sampled_from([0, 0, 0, 1]), min_size=n, max_size=n)))
         results.append({"name": nm, "spec": {"data": data, "mask": mask, "dtype": dtype}})
-    return {"results": results}
+    case = {"results": results}
+    if draw(st.integers(0, 2)) == 0:
+        case["preexisting"] = draw(st.sampled_from([1, n, n + 2]))
+    return case
 
 
 PARTS = {"read": check_read, "write": check_write}
